@@ -153,6 +153,13 @@ class SymSeries:
             return SymSeries(self.vals, OBJ)
         raise NotImplementedError('astype(%r)' % (t,))
 
+    def fillna(self, value):
+        return SymSeries([value if v is None else v for v in self.vals], self.dtype)
+
+    @property
+    def values(self):
+        return self         # the array view: the same per-record values (what np.where hands back is also a SymSeries)
+
     def _cmp(self, other, f):
         if isinstance(other, SymSeries):
             return SymSeries([False if (v is None or o is None) else f(v, o)
